@@ -251,7 +251,7 @@ theorem step_indep (a : ArraySized) (op : Spec.SSeq.Op Elem) (m1 m2 : Mem) (h : 
     dsimp only
     rw [(mapLoop_indep f a.dataLen a.size 0 a.buf m1 m2 []).1]
   | reduce fn r0 => simp only [step, reduce_spec a fn r0 _ h]; (refine ⟨?_, ?_, hs⟩ <;> first | rfl | trivial)
-  | sort sortFn => exact ⟨rfl, rfl, hs⟩
+  | sort sortFn => exact ⟨rfl, rfl, by simp only [step, sort, Mem.check_sched]; exact hs⟩
 
 /-- allocator independence for histories -/
 theorem run_indep (ops : List (Spec.SSeq.Op Elem)) :
